@@ -747,3 +747,560 @@ Proof.
   - apply Forall_forall. intros fs Hfs. apply Forall_forall. intros g Hg. apply Hok. apply in_concat. eauto.
   - intros g f Hg. destruct (Hok g Hg) as (H1 & H2 & H3). apply enc_flat_len; auto.
 Qed.
+
+(* ---- the generators built by fit satisfy the column-size agreement ------------------------------- *)
+Lemma fit_cols_ok st k ids1 ids2 : Forall cols_ok (fit st k ids1 ids2).
+Proof.
+  apply Forall_forall. intros g Hg. unfold fit in Hg.
+  destruct k; unfold fit_identity, fit_product, fit_gradient in Hg.
+  all: try (apply in_map_iff in Hg; destruct Hg as (i & <- & Hi); unfold select_ids in Hi;
+            apply filter_In in Hi; destruct Hi as (_ & Hk); unfold kind_matches, is_cont in Hk;
+            unfold cols_ok, desc_cols; cbn [g_colsize g_desc];
+            destruct (f_type (ds_feature st i)); try discriminate; reflexivity).
+  - (* scalar identity: one column, and the selected features have size 1 *)
+    apply in_map_iff in Hg; destruct Hg as (i & <- & Hi); unfold select_ids in Hi.
+    apply filter_In in Hi; destruct Hi as (_ & Hk); unfold kind_matches, is_cont in Hk.
+    apply andb_true_iff in Hk. destruct Hk as [Hc Hs]. unfold src_sel_scalar in Hs. apply Z.eqb_eq in Hs.
+    unfold cols_ok, desc_cols; cbn [g_colsize g_desc].
+    destruct (f_type (ds_feature st i)); try discriminate; unfold src_cols_struct, src_id_scalar_colsize; lia.
+  - apply in_map_iff in Hg. destruct Hg as ([a b] & <- & _). reflexivity.
+  - apply in_flat_map in Hg. destruct Hg as (i & _ & Hg).
+    destruct (src_grad_applies _ _); [|destruct Hg].
+    apply in_flat_map in Hg. destruct Hg as (ch & _ & Hg).
+    apply in_map_iff in Hg. destruct Hg as (ty & <- & _).
+    unfold cols_ok, desc_cols, f64, fsize, src_cols_struct; cbn [g_colsize g_desc f_type f_d0 f_d1 f_d2]. ring.
+Qed.
+
+(* ---- range checks ---------------------------------------------------------------------------------- *)
+Lemma fold_min_le a l : fold_right Z.min a l <= a /\ forall x, In x l -> fold_right Z.min a l <= x.
+Proof.
+  induction l as [|y l [IH1 IH2]]; cbn; [split; [lia | intros ? []]|].
+  split; [lia|]. intros x [->|H]; [lia|]. specialize (IH2 x H). lia.
+Qed.
+Lemma fold_max_ge a l : a <= fold_right Z.max a l /\ forall x, In x l -> x <= fold_right Z.max a l.
+Proof.
+  induction l as [|y l [IH1 IH2]]; cbn; [split; [lia | intros ? []]|].
+  split; [lia|]. intros x [->|H]; [lia|]. specialize (IH2 x H). lia.
+Qed.
+Lemma fold_min_in a l : fold_right Z.min a l = a \/ In (fold_right Z.min a l) l.
+Proof.
+  induction l as [|y l IH]; cbn; [left; reflexivity|].
+  destruct (Z.min_spec y (fold_right Z.min a l)) as [[_ ->]|[_ ->]]; [right; left; reflexivity|].
+  destruct IH; [left; auto | right; right; auto].
+Qed.
+Lemma fold_max_in a l : fold_right Z.max a l = a \/ In (fold_right Z.max a l) l.
+Proof.
+  induction l as [|y l IH]; cbn; [left; reflexivity|].
+  destruct (Z.max_spec y (fold_right Z.max a l)) as [[_ ->]|[_ ->]]; [|right; left; reflexivity].
+  destruct IH; [left; auto | right; right; auto].
+Qed.
+
+Lemma check_samples_sound n samples : check_samples n samples = true -> Forall (fun s => 0 <= s < n) samples.
+Proof.
+  unfold check_samples, src_check_samples_bad, lmin, lmax. intro H.
+  apply negb_true_iff, orb_false_iff in H. destruct H as [H1 H2].
+  apply Z.ltb_ge in H1. rewrite Z.geb_leb in H2. apply Z.leb_gt in H2.
+  apply Forall_forall. intros x Hx.
+  pose proof (proj2 (fold_min_le (hd 0 samples) samples) x Hx).
+  pose proof (proj2 (fold_max_ge (hd 0 samples) samples) x Hx). lia.
+Qed.
+
+Lemma check_samples_complete n samples :
+  samples <> [] -> Forall (fun s => 0 <= s < n) samples -> check_samples n samples = true.
+Proof.
+  intros Hne H. rewrite Forall_forall in H.
+  assert (Hhd : In (hd 0 samples) samples) by (destruct samples; [congruence | left; reflexivity]).
+  unfold check_samples, src_check_samples_bad, lmin, lmax.
+  apply negb_true_iff, orb_false_iff. rewrite Z.geb_leb. split; [apply Z.ltb_ge | apply Z.leb_gt].
+  - destruct (fold_min_in (hd 0 samples) samples) as [->|Hi]; [apply H; auto | apply H in Hi; lia].
+  - destruct (fold_max_in (hd 0 samples) samples) as [->|Hi]; [apply H; auto | apply H in Hi; lia].
+Qed.
+
+Lemma check_feature_iff gs f : check_feature gs f = true <-> 0 <= f < features gs.
+Proof.
+  unfold check_feature, src_check_feature_bad. rewrite negb_true_iff, orb_false_iff, Z.ltb_ge, Z.geb_leb, Z.leb_gt. lia.
+Qed.
+
+Lemma s_range_rejected : forall rd n gs fl samples f st,
+  (Exists (fun s => s < 0 \/ n <= s) samples ->
+     flatten rd n gs fl samples = None /\ select rd n gs fl samples f = None) /\
+  (Exists (fun s => s < 0 \/ s_samples st <= s) samples ->
+     targets st samples = None /\ target_select st samples = None) /\
+  (~ 0 <= f < features gs ->
+     select rd n gs fl samples f = None /\ apply_op gs fl (ODrop f) = None /\
+     forall p, apply_op gs fl (OShuffle f p) = None) /\
+  (forall rows, flatten rd n gs fl samples = Some rows -> Forall (fun s => 0 <= s < n) samples) /\
+  (forall vs, select rd n gs fl samples f = Some vs -> Forall (fun s => 0 <= s < n) samples /\ 0 <= f < features gs) /\
+  (samples <> [] -> Forall (fun s => 0 <= s < n) samples -> flatten rd n gs fl samples <> None).
+Proof.
+  intros rd n gs fl samples f st.
+  assert (Hbad : forall m, Exists (fun s => s < 0 \/ m <= s) samples -> check_samples m samples = false).
+  { intros m Hex. destruct (check_samples m samples) eqn:E; [|reflexivity].
+    apply check_samples_sound in E. rewrite Forall_forall in E. apply Exists_exists in Hex.
+    destruct Hex as (x & Hx & Hb). apply E in Hx. lia. }
+  split; [|split; [|split; [|split; [|split]]]].
+  - intro Hex. unfold flatten, select. rewrite (Hbad n Hex). auto.
+  - intro Hex. unfold targets, target_select. rewrite (Hbad _ Hex). auto.
+  - intro Hf. assert (Hc : check_feature gs f = false).
+    { destruct (check_feature gs f) eqn:E; [apply check_feature_iff in E; contradiction | reflexivity]. }
+    unfold select, apply_op. rewrite Hc, andb_false_r. auto.
+  - intros rows H. unfold flatten in H. destruct (check_samples n samples) eqn:E; [|discriminate].
+    apply check_samples_sound; auto.
+  - intros vs H. unfold select in H. destruct (check_samples n samples) eqn:E; [|discriminate].
+    destruct (check_feature gs f) eqn:E2; [|discriminate].
+    split; [apply check_samples_sound; auto | apply check_feature_iff; auto].
+  - intros Hne Hall. unfold flatten. rewrite check_samples_complete by auto. discriminate.
+Qed.
+
+(* ---------------------------------------------------------------------------------------------- *)
+(* bookkeeping: feature mapping = locate, counts                                                   *)
+(* ---------------------------------------------------------------------------------------------- *)
+Lemma nth_zseq n k d : 0 <= k < n -> nth (Z.to_nat k) (zseq n) d = k.
+Proof.
+  intro H. unfold zseq.
+  rewrite (nth_indep _ d (Z.of_nat 0)) by (rewrite map_length, seq_length; lia).
+  rewrite map_nth, seq_nth by lia. lia.
+Qed.
+Lemma zlen_zseq n : 0 <= n -> zlen (zseq n) = n.
+Proof. intro H. unfold zlen, zseq. rewrite map_length, seq_length. lia. Qed.
+Lemma zlen_nonneg {A} (l : list A) : 0 <= zlen l.
+Proof. unfold zlen; lia. Qed.
+
+Lemma features_cons fs gs : total_features (fs :: gs) = zlen fs + total_features gs.
+Proof. reflexivity. Qed.
+Lemma total_features_nonneg gs : 0 <= total_features gs.
+Proof. induction gs as [|fs gs IH]; [cbn; lia|]. rewrite features_cons. pose proof (zlen_nonneg fs). lia. Qed.
+
+Lemma fmap_locate : forall gs gi0 f, 0 <= f < total_features gs ->
+  locate gs gi0 f = Some (znth f (fmap_gens gi0 gs) (0, 0)).
+Proof.
+  induction gs as [|fs gs IH]; intros gi0 f Hf; [cbn in Hf; lia|].
+  rewrite features_cons in Hf. cbn [locate fmap_gens]. unfold znth.
+  assert (Lm : length (map (fun li => (gi0, li)) (zseq (zlen fs))) = length fs).
+  { rewrite map_length. pose proof (zlen_zseq (zlen fs) (zlen_nonneg fs)). unfold zlen in *. lia. }
+  destruct (Z.ltb_spec f (zlen fs)).
+  - rewrite app_nth1 by (unfold zlen in *; lia).
+    rewrite (nth_indep _ (0, 0) ((fun li => (gi0, li)) 0)) by (unfold zlen in *; lia).
+    rewrite map_nth, nth_zseq by lia. reflexivity.
+  - rewrite app_nth2 by (unfold zlen in *; lia). rewrite Lm.
+    rewrite IH by lia. unfold znth. do 2 f_equal. unfold zlen. lia.
+Qed.
+
+Lemma locate_range : forall gs gi0 f gi li, 0 <= f -> locate gs gi0 f = Some (gi, li) ->
+  gi0 <= gi /\ 0 <= li /\ (Z.to_nat (gi - gi0) < length gs)%nat /\ li < zlen (nth (Z.to_nat (gi - gi0)) gs []).
+Proof.
+  induction gs as [|fs gs IH]; intros gi0 f gi li Hf H; cbn in H; [discriminate|].
+  destruct (Z.ltb_spec f (zlen fs)).
+  - inversion H; subst. rewrite Z.sub_diag. cbn. repeat split; lia.
+  - apply IH in H; [|lia]. destruct H as (H1 & H2 & H3 & H4).
+    replace (Z.to_nat (gi - gi0)) with (S (Z.to_nat (gi - (gi0 + 1)))) by lia. cbn. repeat split; lia.
+Qed.
+
+Lemma locate_inj : forall gs gi0 f f' p, 0 <= f -> 0 <= f' ->
+  locate gs gi0 f = Some p -> locate gs gi0 f' = Some p -> f = f'.
+Proof.
+  induction gs as [|fs gs IH]; intros gi0 f f' [gi li] Hf Hf' H H'; cbn in H, H'; [discriminate|].
+  destruct (Z.ltb_spec f (zlen fs)); destruct (Z.ltb_spec f' (zlen fs)).
+  - inversion H; inversion H'; subst. auto.
+  - inversion H; subst. apply locate_range in H'; lia.
+  - inversion H'; subst. apply locate_range in H; lia.
+  - assert (f - zlen fs = f' - zlen fs) by (eapply IH; eauto; lia). lia.
+Qed.
+
+(* ---------------------------------------------------------------------------------------------- *)
+(* drop / shuffle histories                                                                        *)
+(* ---------------------------------------------------------------------------------------------- *)
+Definition shape_ok (gs : gens) (fl : flags) : Prop := map (@length flag) fl = map (@length gfeat) gs.
+
+Lemma upd_const_length {A} n (v : A) l : length (upd n (fun _ => v) l) = length l.
+Proof. apply upd_length. Qed.
+
+Lemma set_flag_shape gs fl gi li v : shape_ok gs fl -> shape_ok gs (set_flag fl gi li v).
+Proof.
+  unfold shape_ok, set_flag. intro H. rewrite <- H. clear H.
+  generalize (Z.to_nat gi) as n. induction fl as [|r fl IH]; intros [|n]; cbn; auto.
+  - rewrite upd_length. reflexivity.
+  - f_equal. apply IH.
+Qed.
+Lemma reset_shape gs fl : shape_ok gs fl -> shape_ok gs (reset_flags fl).
+Proof.
+  unfold shape_ok, reset_flags. intro H. rewrite <- H. rewrite map_map. apply map_ext. intro r. apply map_length.
+Qed.
+Lemma init_shape gs : shape_ok gs (flags_init gs).
+Proof. unfold shape_ok, flags_init. rewrite map_map. apply map_ext. intro r. apply map_length. Qed.
+
+Lemma get_reset fl gi li : get_flag (reset_flags fl) gi li = Normal.
+Proof.
+  unfold get_flag, reset_flags, znth.
+  destruct (nth_in_or_default (Z.to_nat gi) (map (map (fun _ : flag => Normal)) fl) []) as [H|H].
+  - apply in_map_iff in H. destruct H as (r & <- & _).
+    destruct (nth_in_or_default (Z.to_nat li) (map (fun _ : flag => Normal) r) Normal) as [H|H].
+    + apply in_map_iff in H. destruct H as (? & <- & _). reflexivity.
+    + auto.
+  - rewrite H. destruct (Z.to_nat li); reflexivity.
+Qed.
+
+Lemma get_set_same fl gi li v : 0 <= gi -> 0 <= li ->
+  (Z.to_nat gi < length fl)%nat -> (Z.to_nat li < length (nth (Z.to_nat gi) fl []))%nat ->
+  get_flag (set_flag fl gi li v) gi li = v.
+Proof.
+  intros Hg Hl H1 H2. unfold get_flag, set_flag, znth.
+  rewrite nth_upd_eq by auto. rewrite nth_upd_eq by auto. reflexivity.
+Qed.
+Lemma get_set_other fl gi li v gi' li' : 0 <= gi -> 0 <= li -> 0 <= gi' -> 0 <= li' ->
+  (gi', li') <> (gi, li) -> get_flag (set_flag fl gi li v) gi' li' = get_flag fl gi' li'.
+Proof.
+  intros Hg Hl Hg' Hl' Hne. unfold get_flag, set_flag, znth.
+  destruct (Z.eq_dec gi gi') as [<-|Ng].
+  - destruct (Nat.lt_ge_cases (Z.to_nat gi) (length fl)) as [Lt|Ge].
+    + rewrite nth_upd_eq by auto. rewrite nth_upd_neq; [reflexivity|]. intro E. apply Hne. f_equal. lia.
+    + assert (forall A n (f : A -> A) (l : list A), (length l <= n)%nat -> upd n f l = l) as Hup.
+      { intros A n f l. revert n. induction l; intros [|n] Hn; cbn in *; try lia; auto. f_equal. apply IHl. lia. }
+      rewrite Hup by auto. reflexivity.
+  - rewrite nth_upd_neq; [reflexivity|]. intro E. apply Ng. lia.
+Qed.
+
+Definition ostep (f : Z) (acc : flag) (o : op) : flag :=
+  match o with
+  | ODrop g => if g =? f then Dropped else acc
+  | OShuffle g p => if g =? f then Shuffled p else acc
+  | OUndrop | OUnshuffle => Normal
+  end.
+(* the flag of feature f after a history, declaratively: the last operation on f after the last undo *)
+Definition spec_flag (ops : list op) (f : Z) : flag := fold_left (ostep f) ops Normal.
+
+Lemma locate_shape gs fl f gi li : shape_ok gs fl -> 0 <= f -> locate gs 0 f = Some (gi, li) ->
+  0 <= gi /\ 0 <= li /\ (Z.to_nat gi < length fl)%nat /\ (Z.to_nat li < length (nth (Z.to_nat gi) fl []))%nat.
+Proof.
+  intros Hs Hf H. apply locate_range in H; auto. destruct H as (H1 & H2 & H3 & H4).
+  rewrite Z.sub_0_r in *. unfold shape_ok in Hs.
+  assert (L : length fl = length gs) by (rewrite <- (map_length (@length flag) fl), Hs, map_length; reflexivity).
+  assert (L2 : length (nth (Z.to_nat gi) fl []) = length (nth (Z.to_nat gi) gs [])).
+  { change (length (nth (Z.to_nat gi) fl [])) with ((fun r => @length flag r) (nth (Z.to_nat gi) fl [])).
+    rewrite <- (map_nth (@length flag)). rewrite Hs.
+    change (length (@nil flag)) with (length (@nil gfeat)). rewrite (map_nth (@length gfeat)). reflexivity. }
+  unfold zlen in H4. repeat split; lia.
+Qed.
+
+Lemma run_ops_gen : forall ops gs fl fl' (acc : Z -> flag),
+  shape_ok gs fl -> run_ops gs fl ops = Some fl' ->
+  (forall f, 0 <= f < features gs -> flag_of gs fl f = acc f) ->
+  shape_ok gs fl' /\ forall f, 0 <= f < features gs -> flag_of gs fl' f = fold_left (ostep f) ops (acc f).
+Proof.
+  induction ops as [|o ops IH]; intros gs fl fl' acc Hs Hrun Hacc; cbn in Hrun.
+  - inversion Hrun; subst. split; auto.
+  - destruct (apply_op gs fl o) as [fl1|] eqn:E; [|discriminate].
+    cbn [fold_left].
+    assert (Hstep : shape_ok gs fl1 /\ forall f, 0 <= f < features gs -> flag_of gs fl1 f = ostep f (acc f) o).
+    { destruct o as [g| |g p|]; cbn in E.
+      - destruct (check_feature gs g) eqn:C; [|discriminate]. apply check_feature_iff in C.
+        pose proof (fmap_locate gs 0 g C) as Lg. fold (feature_mapping gs) in Lg.
+        destruct (znth g (feature_mapping gs) (0, 0)) as [gi li] eqn:Eg. inversion E; subst fl1.
+        split; [apply set_flag_shape; auto|]. intros f Hf. unfold flag_of.
+        pose proof (fmap_locate gs 0 f Hf) as Lf. fold (feature_mapping gs) in Lf.
+        destruct (znth f (feature_mapping gs) (0, 0)) as [gi' li'] eqn:Ef.
+        destruct (locate_shape gs fl g gi li Hs ltac:(lia) Lg) as (A1 & A2 & A3 & A4).
+        destruct (locate_shape gs fl f gi' li' Hs ltac:(lia) Lf) as (B1 & B2 & B3 & B4).
+        cbn [ostep]. destruct (Z.eqb_spec g f) as [->|Ne].
+        + rewrite Lg in Lf. inversion Lf; subst. apply get_set_same; auto.
+        + rewrite get_set_other; auto.
+          * rewrite <- Hacc by auto. unfold flag_of. rewrite Ef. reflexivity.
+          * intro Eq. inversion Eq; subst. apply Ne. eapply (locate_inj gs 0 g f); eauto; lia.
+      - inversion E; subst. split; [apply reset_shape; auto|]. intros f Hf. unfold flag_of.
+        destruct (znth f (feature_mapping gs) (0, 0)). apply get_reset.
+      - destruct (check_feature gs g) eqn:C; [|discriminate]. apply check_feature_iff in C.
+        pose proof (fmap_locate gs 0 g C) as Lg. fold (feature_mapping gs) in Lg.
+        destruct (znth g (feature_mapping gs) (0, 0)) as [gi li] eqn:Eg. inversion E; subst fl1.
+        split; [apply set_flag_shape; auto|]. intros f Hf. unfold flag_of.
+        pose proof (fmap_locate gs 0 f Hf) as Lf. fold (feature_mapping gs) in Lf.
+        destruct (znth f (feature_mapping gs) (0, 0)) as [gi' li'] eqn:Ef.
+        destruct (locate_shape gs fl g gi li Hs ltac:(lia) Lg) as (A1 & A2 & A3 & A4).
+        destruct (locate_shape gs fl f gi' li' Hs ltac:(lia) Lf) as (B1 & B2 & B3 & B4).
+        cbn [ostep]. destruct (Z.eqb_spec g f) as [->|Ne].
+        + rewrite Lg in Lf. inversion Lf; subst. apply get_set_same; auto.
+        + rewrite get_set_other; auto.
+          * rewrite <- Hacc by auto. unfold flag_of. rewrite Ef. reflexivity.
+          * intro Eq. inversion Eq; subst. apply Ne. eapply (locate_inj gs 0 g f); eauto; lia.
+      - inversion E; subst. split; [apply reset_shape; auto|]. intros f Hf. unfold flag_of.
+        destruct (znth f (feature_mapping gs) (0, 0)). apply get_reset. }
+    destruct Hstep as [Hs1 Hf1].
+    apply (IH gs fl1 fl' (fun f => ostep f (acc f) o)); auto.
+Qed.
+
+Lemma init_flag gs f : flag_of gs (flags_init gs) f = Normal.
+Proof.
+  unfold flag_of. destruct (znth f (feature_mapping gs) (0, 0)) as [gi li].
+  unfold get_flag, flags_init, znth.
+  destruct (nth_in_or_default (Z.to_nat gi) (map (fun fs : list gfeat => map (fun _ => Normal) fs) gs) []) as [H|H].
+  - apply in_map_iff in H. destruct H as (r & <- & _).
+    destruct (nth_in_or_default (Z.to_nat li) (map (fun _ : gfeat => Normal) r) Normal) as [H|H]; auto.
+    apply in_map_iff in H. destruct H as (? & <- & _). reflexivity.
+  - rewrite H. destruct (Z.to_nat li); reflexivity.
+Qed.
+
+Lemma s_history : forall gs ops fl,
+  run_ops gs (flags_init gs) ops = Some fl ->
+  forall f, 0 <= f < features gs -> flag_of gs fl f = spec_flag ops f.
+Proof.
+  intros gs ops fl Hrun f Hf.
+  destruct (run_ops_gen ops gs (flags_init gs) fl (fun _ => Normal) (init_shape gs) Hrun) as [_ H].
+  - intros; apply init_flag.
+  - apply H; auto.
+Qed.
+
+(* ---------------------------------------------------------------------------------------------- *)
+(* bookkeeping: columns and column2feature                                                         *)
+(* ---------------------------------------------------------------------------------------------- *)
+Definition dcols (g : gfeat) : Z := desc_cols (g_desc g).
+Fixpoint c2f_flat (fs : list gfeat) (gf : Z) : list Z :=
+  match fs with [] => [] | g :: r => zrepeat gf (dcols g) ++ c2f_flat r (gf + 1) end.
+
+Lemma c2f_flat_app a b gf : c2f_flat (a ++ b) gf = c2f_flat a gf ++ c2f_flat b (gf + zlen a).
+Proof.
+  revert gf; induction a as [|g a IH]; intro gf; cbn.
+  - f_equal. unfold zlen; cbn; lia.
+  - rewrite IH, <- app_assoc. do 3 f_equal. unfold zlen; cbn [length]. lia.
+Qed.
+
+Lemma map_const_repeat {A B} (c : B) (l : list A) : map (fun _ => c) l = repeat c (length l).
+Proof. induction l; cbn; congruence. Qed.
+
+Lemma colmap_feats_snd gi fs gf : map snd (colmap_feats gi fs gf) = c2f_flat fs gf.
+Proof.
+  revert gf; induction fs as [|g fs IH]; intro gf; cbn; [reflexivity|].
+  rewrite map_app, IH. f_equal. rewrite map_map. cbn [snd]. unfold zseq, zrepeat, dcols.
+  rewrite map_map. rewrite map_const_repeat, seq_length. reflexivity.
+Qed.
+
+Lemma colmap_gens_snd : forall gs gi gf, map snd (colmap_gens gi gs gf) = c2f_flat (concat gs) gf.
+Proof.
+  induction gs as [|fs gs IH]; intros gi gf; cbn; [reflexivity|].
+  rewrite map_app, colmap_feats_snd, IH, c2f_flat_app. reflexivity.
+Qed.
+
+Lemma c2f_flat_len fs gf : Forall (fun g => 0 <= dcols g) fs -> zlen (c2f_flat fs gf) = zsum (map dcols fs).
+Proof.
+  revert gf; induction fs as [|g fs IH]; intros gf H; cbn; [reflexivity|].
+  inversion H; subst. rewrite zlen_app, zlen_zrepeat, IH by auto. reflexivity.
+Qed.
+
+Lemma nth_repeat_lt {A} (a d : A) n m : (n < m)%nat -> nth n (repeat a m) d = a.
+Proof. revert n; induction m; intros [|n] H; cbn; try lia; auto. apply IHm; lia. Qed.
+
+Lemma in_firstn {A} k (l : list A) x : In x (firstn k l) -> In x l.
+Proof. intro H. rewrite <- (firstn_skipn k l). apply in_or_app. left. exact H. Qed.
+
+Lemma c2f_flat_nth : forall fs gf k i d,
+  Forall (fun g => 0 <= dcols g) fs -> (k < length fs)%nat ->
+  0 <= i < dcols (nth k fs (mkG GScalar 0 0 dflt_feature 1)) ->
+  nth (Z.to_nat (zsum (map dcols (firstn k fs)) + i)) (c2f_flat fs gf) d = gf + Z.of_nat k.
+Proof.
+  induction fs as [|g fs IH]; intros gf k i d Hn Hk Hi; [cbn in Hk; lia|].
+  inversion Hn; subst. cbn [c2f_flat].
+  destruct k as [|k]; cbn [firstn map zsum fold_right nth] in *.
+  - rewrite app_nth1 by (pose proof (zlen_zrepeat gf (dcols g) H1); unfold zlen in *; lia).
+    unfold zrepeat. rewrite nth_repeat_lt by lia. lia.
+  - assert (Hs : 0 <= zsum (map dcols (firstn k fs))).
+    { rewrite <- (c2f_flat_len (firstn k fs) 0); [apply zlen_nonneg|].
+      apply Forall_forall. intros x Hx. rewrite Forall_forall in H2. apply H2. eapply in_firstn; eauto. }
+    fold (zsum (map dcols (firstn k fs))).
+    pose proof (zlen_zrepeat gf (dcols g) H1) as Lz.
+    rewrite app_nth2 by (unfold zlen in *; lia).
+    replace (Z.to_nat (dcols g + zsum (map dcols (firstn k fs)) + i) - length (zrepeat gf (dcols g)))%nat
+      with (Z.to_nat (zsum (map dcols (firstn k fs)) + i)) by (unfold zlen in *; lia).
+    rewrite IH; auto; [lia | cbn in Hk; lia].
+Qed.
+
+Lemma zsum_app a b : zsum (a ++ b) = zsum a + zsum b.
+Proof. induction a; cbn [app]; unfold zsum in *; cbn [fold_right]; [reflexivity | rewrite IHa; lia]. Qed.
+
+Lemma zsum_cons x l : zsum (x :: l) = x + zsum l.
+Proof. reflexivity. Qed.
+
+Lemma columns_all gs : columns gs = zsum (map dcols (all_feats gs)).
+Proof.
+  unfold columns, total_columns, all_feats. induction gs as [|fs gs IH]; [reflexivity|].
+  cbn [map concat]. rewrite map_app, zsum_app, zsum_cons, IH.
+  replace (map (fun g => desc_cols_total (g_desc g)) fs) with (map dcols fs); [reflexivity|].
+  apply map_ext. intro g. symmetry. apply desc_cols_total_eq.
+Qed.
+
+Lemma features_all gs : features gs = zlen (all_feats gs).
+Proof.
+  unfold features, total_features, all_feats. induction gs as [|fs gs IH]; [reflexivity|].
+  cbn [map concat]. rewrite zlen_app, zsum_cons, IH. reflexivity.
+Qed.
+
+Lemma fmap_len gs gi : zlen (fmap_gens gi gs) = total_features gs.
+Proof.
+  revert gi; induction gs as [|fs gs IH]; intro gi; [reflexivity|].
+  cbn [fmap_gens]. rewrite features_cons, zlen_app, IH.
+  unfold zlen at 1. rewrite map_length. fold (zlen (zseq (zlen fs))). rewrite zlen_zseq by apply zlen_nonneg. reflexivity.
+Qed.
+
+Lemma zsum_map_nonneg {A} (h : A -> Z) l : Forall (fun g => 0 <= h g) l -> 0 <= zsum (map h l).
+Proof. induction 1; cbn [map]; [cbn; lia | rewrite zsum_cons; lia]. Qed.
+
+Lemma zsum_prefix {A} (h : A -> Z) : forall l k d, Forall (fun g => 0 <= h g) l -> (k < length l)%nat ->
+  0 <= zsum (map h (firstn k l)) /\ zsum (map h (firstn k l)) + h (nth k l d) <= zsum (map h l).
+Proof.
+  induction l as [|a l IH]; intros k d Hn Hk; [cbn in Hk; lia|].
+  inversion Hn; subst. pose proof (zsum_map_nonneg h l H2).
+  destruct k as [|k]; cbn [firstn map nth]; rewrite ?zsum_cons.
+  - cbn. lia.
+  - destruct (IH k d H2) as [I1 I2]; [cbn in Hk; lia|]. lia.
+Qed.
+
+Lemma s_bookkeeping : forall gs,
+  Forall (fun g => 0 <= dcols g) (all_feats gs) ->
+  columns gs = zlen (column_mapping gs) /\
+  columns gs = zsum (map dcols (all_feats gs)) /\
+  features gs = zlen (feature_mapping gs) /\ features gs = zlen (all_feats gs) /\
+  (forall f, 0 <= f < features gs -> locate gs 0 f = Some (znth f (feature_mapping gs) (0, 0))) /\
+  (forall f i, 0 <= f < features gs ->
+     0 <= i < dcols (znth f (all_feats gs) (mkG GScalar 0 0 dflt_feature 1)) ->
+     column2feature gs (col_offset gs f + i) = f /\ 0 <= col_offset gs f + i < columns gs).
+Proof.
+  intros gs Hn.
+  pose proof (columns_all gs) as Hcols.
+  assert (Hmap : map snd (column_mapping gs) = c2f_flat (all_feats gs) 0) by apply colmap_gens_snd.
+  assert (Hlen : zlen (column_mapping gs) = zsum (map dcols (all_feats gs))).
+  { rewrite <- (c2f_flat_len (all_feats gs) 0 Hn), <- Hmap. unfold zlen. rewrite map_length. reflexivity. }
+  pose proof (features_all gs) as Hfeat.
+  split; [lia|]. split; [auto|]. split; [|split; [auto|split]].
+  - symmetry. apply fmap_len.
+  - intros f Hf. apply fmap_locate. exact Hf.
+  - intros f i Hf Hi. unfold znth in Hi.
+    assert (Hk : (Z.to_nat f < length (all_feats gs))%nat) by (unfold zlen in Hfeat; lia).
+    pose proof (c2f_flat_nth (all_feats gs) 0 (Z.to_nat f) i (-1) Hn Hk Hi) as Hnth.
+    split.
+    + unfold column2feature, znth.
+      rewrite <- (map_nth snd (column_mapping gs) (0, 0, -1)), Hmap.
+      change (nth (Z.to_nat (zsum (map dcols (firstn (Z.to_nat f) (all_feats gs))) + i)) (c2f_flat (all_feats gs) 0) (-1) = f).
+      rewrite Hnth. lia.
+    + change (col_offset gs f) with (zsum (map dcols (firstn (Z.to_nat f) (all_feats gs)))). rewrite Hcols.
+      pose proof (zsum_prefix dcols (all_feats gs) (Z.to_nat f) (mkG GScalar 0 0 dflt_feature 1) Hn Hk) as [P1 P2].
+      lia.
+Qed.
+
+(* ---- statements used by Properties_C08 -------------------------------------------------------------- *)
+Lemma t_storage_disjoint : forall fs rs tot,
+  assign (repeat 0 npools) fs = (rs, tot) -> Forall (fun f => 0 <= width f) fs ->
+  length rs = length fs /\
+  (forall i f b e, nth_error fs i = Some f -> nth_error rs i = Some (b, e) ->
+     0 <= b /\ e = b + width f /\ e <= nth (pool_idx (pool_resize f)) tot 0) /\
+  (forall i j fi fj bi ei bj ej, (i < j)%nat ->
+     nth_error fs i = Some fi -> nth_error fs j = Some fj ->
+     nth_error rs i = Some (bi, ei) -> nth_error rs j = Some (bj, ej) ->
+     pool_resize fi = pool_resize fj -> ei <= bj) /\
+  (forall f, pool_visit f = pool_resize f).
+Proof.
+  intros fs rs tot E Hw.
+  destruct (assign_spec _ _ _ _ E (repeat_length _ _) Hw) as (L1 & L2 & M & S & D).
+  split; [auto|]. split; [|split].
+  - intros i f b e Hf Hr. destruct (S _ _ _ _ Hf Hr) as (S1 & S2 & S3). rewrite nth_repeat0 in S1.
+    unfold pool_of in S3. auto.
+  - intros i j fi fj bi ei bj ej Hij Hfi Hfj Hri Hrj Hp. eapply (D i j); eauto. unfold pool_of. rewrite Hp. reflexivity.
+  - apply pool_agree.
+Qed.
+
+Lemma t_storage_set_get : forall st fi s vals st',
+  layout_ok st -> 0 <= fi < zlen (s_feats st) -> 0 <= s < s_samples st ->
+  ds_set st fi s vals = Some st' ->
+  layout_ok st' /\ ds_get st' fi s = Some vals /\
+  (forall fj sj, 0 <= fj < zlen (s_feats st) -> 0 <= sj < s_samples st -> (fj <> fi \/ sj <> s) ->
+     ds_get st' fj sj = ds_get st fj sj).
+Proof.
+  intros st fi s vals st' Hl Hfi Hs Hset. split; [|split].
+  - apply (set_layout st fi s vals st'); auto.
+  - apply (get_same st fi s vals st'); auto.
+  - intros. apply (get_other st fi s vals st'); auto.
+Qed.
+
+Lemma t_reads_in_bounds : forall st fj sj,
+  layout_ok st -> 0 <= fj < zlen (s_feats st) -> 0 <= sj < s_samples st ->
+  let g := znth fj (s_feats st) dflt_feature in
+  0 <= cell_addr st fj sj /\
+  cell_addr st fj sj + width g <= zlen (nth (pool_idx (pool_visit g)) (s_pools st) []).
+Proof.
+  intros st fj sj Hl Hf Hs g.
+  destruct (cell_block st 0 Hl fj sj Hf Hs) as (W & B & E & A1 & A2 & A3 & A4).
+  fold g in W, E, A1, A2, A3, A4. rewrite pool_agree. fold (pool_of g).
+  destruct Hl as (HN & _). split; [nia | lia].
+Qed.
+
+Lemma spec_flag_app ops o f : spec_flag (ops ++ [o]) f = ostep f (spec_flag ops f) o.
+Proof. unfold spec_flag. rewrite fold_left_app. reflexivity. Qed.
+
+Lemma t_history : forall gs ops fl,
+  run_ops gs (flags_init gs) ops = Some fl ->
+  (forall f, 0 <= f < features gs -> flag_of gs fl f = spec_flag ops f) /\
+  (forall f, spec_flag (ops ++ [OUndrop]) f = Normal /\ spec_flag (ops ++ [OUnshuffle]) f = Normal) /\
+  (forall f g, f <> g -> spec_flag (ops ++ [ODrop g]) f = spec_flag ops f /\ spec_flag (ops ++ [ODrop g]) g = Dropped) /\
+  (forall f g p, f <> g -> spec_flag (ops ++ [OShuffle g p]) f = spec_flag ops f /\
+                           spec_flag (ops ++ [OShuffle g p]) g = Shuffled p) /\
+  (forall p s, p <> [] -> eff_sample (Shuffled p) s = znth s p 0) /\
+  (forall s, eff_sample Normal s = s).
+Proof.
+  intros gs ops fl Hrun. split; [intros; eapply s_history; eauto|].
+  split; [intro f; rewrite !spec_flag_app; split; reflexivity|].
+  split; [|split; [|split]].
+  - intros f g Hne. rewrite !spec_flag_app. cbn [ostep]. rewrite Z.eqb_refl.
+    destruct (Z.eqb_spec g f); [congruence | auto].
+  - intros f g p Hne. rewrite !spec_flag_app. cbn [ostep]. rewrite Z.eqb_refl.
+    destruct (Z.eqb_spec g f); [congruence | auto].
+  - intros p s Hp. cbn [eff_sample]. destruct p; [congruence|]. reflexivity.
+  - reflexivity.
+Qed.
+
+Lemma nth_map_lt {A B} (f : A -> B) l n d d' : (n < length l)%nat -> nth n (map f l) d = f (nth n l d').
+Proof. revert n; induction l; intros [|n] H; cbn in *; try lia; auto. apply IHl; lia. Qed.
+
+Lemma t_encoders : forall rd g fl s,
+  (is_dropped fl = true ->
+     select_view rd g fl s = match f_type (g_desc g) with
+                             | TSclass => VSclass (-1)
+                             | TMclass => VMclass (zrepeat (-1) (f_classes (g_desc g)))
+                             | _ => if fsize (g_desc g) =? 1 then VScalar None else VStruct (zrepeat None (fsize (g_desc g)))
+                             end) /\
+  (is_dropped fl = false -> g_kind g <> GProduct -> g_kind g <> GGradient ->
+     select_view rd g fl s =
+     match f_type (g_desc g), rd (g_o1 g) (eff_sample fl s) with
+     | TSclass, Some v => VSclass (hd 0 v)        | TSclass, None => VSclass (-1)
+     | TMclass, Some v => VMclass v               | TMclass, None => VMclass (zrepeat (-1) (f_classes (g_desc g)))
+     | _, Some v => if fsize (g_desc g) =? 1 then VScalar (Some (hd 0 v)) else VStruct (map Some v)
+     | _, None => if fsize (g_desc g) =? 1 then VScalar None else VStruct (zrepeat None (fsize (g_desc g)))
+     end) /\
+  (is_dropped fl = false -> g_kind g = GProduct -> g_desc g = f64 1 1 1 ->
+     select_view rd g fl s =
+     VScalar (match rd (g_o1 g) (eff_sample fl s), rd (g_o2 g) (eff_sample fl s) with
+              | Some a, Some b => Some (hd 0 a * hd 0 b)
+              | _, _ => None
+              end)) /\
+  (forall c l j, 0 <= l -> 0 <= j < c - 1 ->
+     zlen (encode_view c (VSclass l)) = c - 1 /\
+     znth j (encode_view c (VSclass l)) None = Some (if j =? l then 1 else -1)) /\
+  (forall c, 1 <= c -> encode_view c (VSclass (-1)) = zrepeat None (c - 1)) /\
+  (forall c h, 0 <= hd 0 h -> encode_view c (VMclass h) = map (fun x => Some (2 * x - 1)) h) /\
+  (forall c, encode_view c (VMclass (zrepeat (-1) c)) = zrepeat None c).
+Proof.
+  intros rd g fl s. split; [|split; [|split; [|split; [|split; [|split]]]]].
+  - intro Hd. unfold select_view. rewrite Hd.
+    destruct (f_type (g_desc g)); try reflexivity; destruct (fsize (g_desc g) =? 1); reflexivity.
+  - intros Hd Hp Hg. unfold select_view, gvalue. rewrite Hd.
+    destruct (g_kind g); try congruence;
+      destruct (f_type (g_desc g)); destruct (rd (g_o1 g) (eff_sample fl s)); try reflexivity;
+      destruct (fsize (g_desc g) =? 1); reflexivity.
+  - intros Hd Hp Hdesc. unfold select_view, gvalue. rewrite Hd, Hp, Hdesc. cbn.
+    destruct (rd (g_o1 g) (eff_sample fl s)); [|reflexivity].
+    destruct (rd (g_o2 g) (eff_sample fl s)); reflexivity.
+  - intros c l j Hl Hj. cbn [encode_view]. destruct (Z.ltb_spec l 0); [lia|].
+    split.
+    + unfold zlen. rewrite map_length. fold (zlen (zseq (c - 1))). apply zlen_zseq. lia.
+    + unfold znth.
+      rewrite (nth_map_lt _ _ _ _ 0) by (pose proof (zlen_zseq (c - 1) ltac:(lia)); unfold zlen in *; lia).
+      rewrite nth_zseq by lia. reflexivity.
+  - intros c Hc. reflexivity.
+  - intros c h Hh. cbn [encode_view]. destruct (Z.ltb_spec (hd 0 h) 0); [lia | reflexivity].
+  - intro c. apply mclass_missing_enc.
+Qed.
